@@ -867,6 +867,8 @@ main(int argc, char **argv)
 		for (int i = 0; i < 2; i++)
 			if (i == 0 || vx_is_thorough())
 				orc_explore_tiers(&OR[i]);
+			else
+				orc_explore(&OR[i], 1, 2, 2); // quick: pair1 gets the resize variant
 	}
 	SR_PROP = "C08";
 	sr_explore("C08", 0, vx_is_thorough());
